@@ -189,7 +189,10 @@ func (b *c17Backend) Get(ctx context.Context, d digest.Digest) buffer.Buffer {
 }
 
 // GetFromComposite (op 3) serves the child of parent p: c17Child(p).  It is
-// only reached by the mixed-entry-point cases (C17L); the slicer is not used.
+// reached by the composite reads of kind 0 (which hand over c17Slicer: the
+// backend holds whole parents and lets the slicer cut the child out, as a
+// store that has not seen the child yet does) and by the mixed-entry-point
+// cases (C17L, no slicer).
 func (b *c17Backend) GetFromComposite(ctx context.Context, p, c digest.Digest, s slicing.BlobSlicer) buffer.Buffer {
 	id := c17ID(p)
 	if id < 0 {
@@ -205,7 +208,32 @@ func (b *c17Backend) GetFromComposite(ctx context.Context, p, c digest.Digest, s
 		return buffer.NewBufferFromError(err)
 	}
 	b.done(ctx, 3, []int{id}, nil, nil)
+	if s != nil {
+		child, _ := s.Slice(buffer.NewValidatedBufferFromByteSlice(c17Contents[id]), c)
+		return child
+	}
 	return buffer.NewValidatedBufferFromByteSlice(c17Child(id))
+}
+
+// c17Slicer cuts the child (everything after the first four bytes) out of a
+// parent; it reports the slice it found, as a real slicer does.
+type c17Slicer struct{}
+
+func (c17Slicer) Slice(b buffer.Buffer, childDigest digest.Digest) (buffer.Buffer, []slicing.BlobSlice) {
+	data, err := b.ToByteSlice(1 << 20)
+	if err != nil {
+		return buffer.NewBufferFromError(err), nil
+	}
+	if len(data) < 4 {
+		return buffer.NewBufferFromError(status.Error(codes.InvalidArgument, "parent too short")), nil
+	}
+	child := data[4:]
+	h := md5.Sum(child)
+	d := digest.MustNewDigest("c17", remoteexecution.DigestFunction_MD5, hex.EncodeToString(h[:]), int64(len(child)))
+	if d != childDigest {
+		return buffer.NewBufferFromError(status.Error(codes.InvalidArgument, "parent does not contain the child")), nil
+	}
+	return buffer.NewValidatedBufferFromByteSlice(child), []slicing.BlobSlice{{Digest: d, OffsetBytes: 4, SizeBytes: int64(len(child))}}
 }
 
 // c17Child is the part of object id that a composite read asks for.
@@ -334,7 +362,7 @@ func (c17) execSeq(in Sx) (Sx, bool) {
 	ctx := context.Background()
 	out := []Sx{}
 	for _, st := range in.Nth(5).List {
-		if st.Len() != 3 || !c17Atom(st.Nth(0), 0, 2) || st.Nth(2).IsAtom {
+		if st.Len() != 3 || !c17Atom(st.Nth(0), 0, 3) || st.Nth(2).IsAtom {
 			return Sx{}, false
 		}
 		for _, f := range st.Nth(2).List {
@@ -345,9 +373,10 @@ func (c17) execSeq(in Sx) (Sx, bool) {
 		env.faults = st.Nth(2).Ints()
 		env.calls = nil
 		code := 0
+		pfx := 0
 		ans := []int{}
 		switch st.Nth(0).Z {
-		case 0, 1:
+		case 0, 1, 3:
 			if !c17Atom(st.Nth(1), 0, c17NObj-1) {
 				return Sx{}, false
 			}
@@ -355,7 +384,16 @@ func (c17) execSeq(in Sx) (Sx, bool) {
 			if st.Nth(0).Z == 0 {
 				data, err := ba.Get(ctx, c17Digests[id]).ToByteSlice(1 << 20)
 				code = c17Code(err)
+				pfx = c17Prefix(err)
 				if err == nil && string(data) != string(c17Contents[id]) {
+					code = -3
+				}
+			} else if st.Nth(0).Z == 3 {
+				// composite read: parent id, its child, the harness's slicer
+				data, err := ba.GetFromComposite(ctx, c17Digests[id], c17ChildDigest(id), c17Slicer{}).ToByteSlice(1 << 20)
+				code = c17Code(err)
+				pfx = c17Prefix(err)
+				if err == nil && string(data) != string(c17Child(id)) {
 					code = -3
 				}
 			} else {
@@ -369,9 +407,25 @@ func (c17) execSeq(in Sx) (Sx, bool) {
 			code = c17Code(err)
 			ans = c17SetIDs(missing)
 		}
-		out = append(out, L(AI(code), LInts(ans), L(env.calls...), LInts(a.contents()), LInts(b.contents())))
+		out = append(out, L(AI(code), LInts(ans), L(env.calls...), LInts(a.contents()), LInts(b.contents()), AI(pfx)))
 	}
 	return L(out...), true
+}
+
+// c17Prefix: which backend name the composite put in front of a read's error
+// (0 none, 1 "Primary", 2 "Secondary").
+func c17Prefix(err error) int {
+	if err == nil {
+		return 0
+	}
+	m := status.Convert(err).Message()
+	switch {
+	case strings.HasPrefix(m, "Primary: "):
+		return 1
+	case strings.HasPrefix(m, "Secondary: "):
+		return 2
+	}
+	return 0
 }
 
 // ---------------------------------------------------------------------------
@@ -432,7 +486,7 @@ func (c17) execEC(in Sx) (Sx, bool) {
 	ctx := context.Background()
 	out := []Sx{}
 	for _, op := range in.Nth(3).List {
-		if op.IsAtom || !c17Atom(op.Nth(0), 0, 4) {
+		if op.IsAtom || !c17Atom(op.Nth(0), 0, 5) {
 			return Sx{}, false
 		}
 		clk.readings = nil
@@ -475,6 +529,26 @@ func (c17) execEC(in Sx) (Sx, bool) {
 			}
 			backend.lock.Unlock()
 			out = append(out, L(A(0), L(), L(), L()))
+		case 5:
+			// composite read through the decorator: parent, its child, the harness's slicer
+			if op.Len() != 3 || !c17Atom(op.Nth(1), 0, c17NObj-1) || !c17Atom(op.Nth(2), 0, 16) {
+				return Sx{}, false
+			}
+			id := op.Nth(1).Int()
+			env.faults = []int{op.Nth(2).Int()}
+			env.calls = nil
+			data, err := eba.GetFromComposite(ctx, c17Digests[id], c17ChildDigest(id), c17Slicer{}).ToByteSlice(1 << 20)
+			code := c17Code(err)
+			if err == nil && string(data) != string(c17Child(id)) {
+				code = -3
+			}
+			call := L()
+			if len(env.calls) == 1 && env.calls[0].Nth(1).Int() == 3 {
+				call = L(env.calls[0].Nth(2))
+			} else if len(env.calls) > 0 {
+				call = L(L(A(-9))) // some other backend call
+			}
+			out = append(out, L(AI(code), L(), call, c17Int64s(clk.readings)))
 		}
 	}
 	return L(out...), true
@@ -604,9 +678,12 @@ func c17GenSeq(r *Rand, tier string) Sx {
 			faults = append(faults, r.Pick(c17FaultCodes))
 		}
 		switch x := r.Intn(100); {
-		case x < 50:
+		case x < 30:
 			ops = append(ops, L(A(0), AI(r.Intn(nobj)), LInts(faults)))
-		case x < 68:
+		case x < 58:
+			// composite read (GetFromComposite) of the child of a parent
+			ops = append(ops, L(A(3), AI(r.Intn(nobj)), LInts(faults)))
+		case x < 72:
 			ops = append(ops, L(A(1), AI(r.Intn(nobj)), LInts(faults)))
 		default:
 			ops = append(ops, L(A(2), LInts(c17Subset(r, nobj, 5)), LInts(faults)))
@@ -657,10 +734,18 @@ func c17GenEC(r *Rand, tier string) Sx {
 			ops = append(ops, L(A(1), LInts(c17Subset(r, nobj, 6)), AI(delta())))
 		case x < 72:
 			ops = append(ops, L(A(2), LInts(c17Subset(r, nobj, 3)), AI(delta())))
-		case x < 86:
+		case x < 82:
 			ops = append(ops, L(A(3), AI(r.Intn(nobj))))
-		default:
+		case x < 90:
 			ops = append(ops, L(A(4), AI(r.Intn(nobj))))
+		default:
+			// composite read through the decorator (often of an object the
+			// cache has recorded as present and the backend has lost since)
+			f := 0
+			if r.Chance(10) {
+				f = r.Pick(c17FaultCodes)
+			}
+			ops = append(ops, L(A(5), AI(r.Intn(nobj)), AI(f)))
 		}
 	}
 	return L(A(1), AI(size), AI(dur), L(ops...))
@@ -728,19 +813,55 @@ func (c17) Class(in, obs Sx) (string, bool) {
 	case 0:
 		comp := []string{"readcaching", "readfallback"}[in.Nth(1).Int()&1]
 		through, faulted := false, false
-		for _, st := range obs.List {
+		// composite reads (GetFromComposite): of a parent only the fast /
+		// primary backend holds, and successful read-throughs of a parent
+		// only the slow / secondary backend holds, judged from the calls.
+		gfc, gfcFast, gfcThrough := false, false, false
+		for j, st := range obs.List {
 			if st.Nth(2).Len() >= 2 {
 				through = true
 			}
+			stFaulted := false
 			for _, c := range st.Nth(2).List {
 				if c.Nth(3).Int() != 0 {
 					faulted = true
+					stFaulted = true
+				}
+			}
+			if in.Nth(5).Nth(j).Nth(0).Int() == 3 {
+				gfc = true
+				id := in.Nth(5).Nth(j).Nth(1).Z
+				inA, inB := in.Nth(3), in.Nth(4)
+				if j > 0 {
+					inA, inB = obs.Nth(j-1).Nth(3), obs.Nth(j-1).Nth(4)
+				}
+				hasA, hasB := false, false
+				for _, x := range inA.List {
+					hasA = hasA || x.Z == id
+				}
+				for _, x := range inB.List {
+					hasB = hasB || x.Z == id
+				}
+				if hasA && !hasB && !stFaulted {
+					gfcFast = true
+				}
+				if !hasA && hasB && st.Nth(0).Int() == 0 {
+					gfcThrough = true
 				}
 			}
 		}
 		c := "seq-" + comp + "/repl" + in.Nth(2).String()
 		if faulted {
 			c += "/fault"
+		}
+		if gfc {
+			c += "/gfc"
+			if gfcFast {
+				c += "+fastonly"
+			}
+			if gfcThrough {
+				c += "+through"
+			}
 		}
 		return c, through || faulted
 	case 1:
